@@ -42,13 +42,22 @@ def oracle (delivered : NBytes) (w : Wire) (endi : String) (calls : List String)
     if big.any (fun v => fs.any fun f => f.lits.any fun l => l.sent == v) then "fail:literal-over-4096-buffered"
     else
       -- an APPEND over the limit is refused before its payload is read
-      let over := fs.filter fun f => frameName f == appendName &&
+      -- judged on the MESSAGE literal only (the literal after the mailbox and the optional flag list /
+      -- date: not the first argument), and only in the strict domain, where the faithful client waited at
+      -- that literal so that a "+" received at its offset answers it
+      let strict := fs.all (·.strict)
+      let isMsgLit := fun (f : FramingSpec.Frame) =>
+        f.lits.length ≥ 2 ||
+          (match f.texts with
+           | t :: _ => ((splitOnChar (bytesAscii (t.map UInt8.ofNat)) ' ').filter (· != "")).length ≥ 4
+           | [] => false)
+      let over := fs.filter fun f => frameName f == appendName && isMsgLit f &&
         (match f.lits.getLast? with | some l => l.size > 104857600 | none => false)
-      if over.any (fun f => match f.lits.getLast? with | some l => !l.nonSync && conts.contains l.off | none => false)
+      if strict && over.any (fun f => match f.lits.getLast? with | some l => !l.nonSync && conts.contains l.off | none => false)
       then "fail:append-over-limit-accepted"
       else
         let okAppends := (fs.filter fun f => frameName f == appendName &&
-          (match f.lits.getLast? with | some l => l.size ≤ 104857600 | none => false)).length
+          (match f.lits.getLast? with | some l => l.size ≤ 104857600 || !isMsgLit f | none => false)).length
         let appendCalls := (calls.filter fun c => c.startsWith "Append:").length
         if fs.all (·.strict) && appendCalls > okAppends then "fail:append-over-limit-executed"
         else
